@@ -2,7 +2,7 @@ use std::hash::Hash;
 use std::str::FromStr;
 
 use chrono::Duration;
-use tea_error::{TError, TResult, tbail, tensure};
+use tea_error::{TError, TResult, tbail, tensure, terr};
 
 use crate::convert::*;
 
@@ -67,6 +67,24 @@ impl From<&str> for TimeDelta {
     }
 }
 
+/// `acc + n * scale`, or a parse error if the result does not fit in an `i64`.
+#[inline]
+fn add_scaled(acc: i64, n: i64, scale: i64) -> TResult<i64> {
+    n.checked_mul(scale)
+        .and_then(|v| acc.checked_add(v))
+        .ok_or_else(|| terr!(ParseError:"duration overflow: {} * {} is out of range", n, scale))
+}
+
+/// `acc + n * scale` in months, or a parse error if the result does not fit in an `i32`.
+#[inline]
+fn add_months(acc: i32, n: i64, scale: i32) -> TResult<i32> {
+    i32::try_from(n)
+        .ok()
+        .and_then(|v| v.checked_mul(scale))
+        .and_then(|v| acc.checked_add(v))
+        .ok_or_else(|| terr!(ParseError:"duration overflow: {} * {} months is out of range", n, scale))
+}
+
 impl TimeDelta {
     /// Parse timedelta from string
     ///
@@ -116,15 +134,17 @@ impl TimeDelta {
     /// assert_eq!(td.inner, chrono::Duration::seconds(3 * 86400 + 4 * 3600 + 5 * 60 + 6));
     /// ```
     pub fn parse(duration: &str) -> TResult<Self> {
-        let mut nsecs = 0;
-        let mut secs = 0;
-        let mut months = 0;
+        let mut nsecs: i64 = 0;
+        let mut secs: i64 = 0;
+        let mut months: i32 = 0;
         let mut iter = duration.char_indices();
         let mut start = 0;
         let mut unit = String::with_capacity(2);
         while let Some((i, mut ch)) = iter.next() {
             if !ch.is_ascii_digit() && i != 0 {
-                let n = duration[start..i].parse::<i64>().unwrap();
+                let n = duration[start..i].parse::<i64>().map_err(|_| {
+                    terr!(ParseError:"invalid number '{}' in the duration string", &duration[start..i])
+                })?;
                 loop {
                     if ch.is_ascii_alphabetic() {
                         unit.push(ch)
@@ -144,22 +164,24 @@ impl TimeDelta {
                 tensure!(!unit.is_empty(), ParseError:"expected a unit in the duration string");
 
                 match unit.as_str() {
-                    "ns" => nsecs += n,
-                    "us" => nsecs += n * NANOS_PER_MICRO,
-                    "ms" => nsecs += n * NANOS_PER_MILLI,
-                    "s" => secs += n,
-                    "m" => secs += n * SECS_PER_MINUTE,
-                    "h" => secs += n * SECS_PER_HOUR,
-                    "d" => secs += n * SECS_PER_DAY,
-                    "w" => secs += n * SECS_PER_WEEK,
-                    "mo" => months += n as i32,
-                    "y" => months += n as i32 * 12,
+                    "ns" => nsecs = add_scaled(nsecs, n, 1)?,
+                    "us" => nsecs = add_scaled(nsecs, n, NANOS_PER_MICRO)?,
+                    "ms" => nsecs = add_scaled(nsecs, n, NANOS_PER_MILLI)?,
+                    "s" => secs = add_scaled(secs, n, 1)?,
+                    "m" => secs = add_scaled(secs, n, SECS_PER_MINUTE)?,
+                    "h" => secs = add_scaled(secs, n, SECS_PER_HOUR)?,
+                    "d" => secs = add_scaled(secs, n, SECS_PER_DAY)?,
+                    "w" => secs = add_scaled(secs, n, SECS_PER_WEEK)?,
+                    "mo" => months = add_months(months, n, 1)?,
+                    "y" => months = add_months(months, n, 12)?,
                     unit => tbail!(ParseError:"unit: '{}' not supported", unit),
                 }
                 unit.clear();
             }
         }
-        let duration = Duration::seconds(secs) + Duration::nanoseconds(nsecs);
+        let duration = Duration::try_seconds(secs)
+            .and_then(|d| d.checked_add(&Duration::nanoseconds(nsecs)))
+            .ok_or_else(|| terr!(ParseError:"duration overflow: the duration string is out of range"))?;
         Ok(TimeDelta {
             months,
             inner: duration,
